@@ -284,8 +284,8 @@ package saml2
 
 //@ func xmlUnmarshalElement(el *etree.Element, obj any) (err error)
 //@   requires el != nil && !(obj is *etree.Element) && !(obj is *etree.Document)
-//@   requires [C01, C04] zero.response: obj is *types.Response ==> *obj.(*types.Response) == types.Response{}
-//@   requires [C01, C04] zero.assertion: obj is *types.Assertion ==> *obj.(*types.Assertion) == types.Assertion{}
+//@   requires [C01, C04, C08] zero.response: obj is *types.Response ==> *obj.(*types.Response) == types.Response{}
+//@   requires [C01, C04, C08] zero.assertion: obj is *types.Assertion ==> *obj.(*types.Assertion) == types.Assertion{}
 //@   requires [C10, C04] zero.logoutresponse: obj is *types.LogoutResponse ==> *obj.(*types.LogoutResponse) == types.LogoutResponse{}
 //@   requires [C10, C04] zero.logoutrequest: obj is *LogoutRequest ==> *obj.(*LogoutRequest) == LogoutRequest{}
 //@   requires [C07] zero.encrypted: obj is *types.EncryptedAssertion ==> *obj.(*types.EncryptedAssertion) == types.EncryptedAssertion{}
@@ -388,7 +388,7 @@ package saml2
 //@   iter 0
 //@     invariant [C09] certok: decryptCert != nil ==> KeyOK(decryptCert.PrivateKey)
 //@     invariant [C09] rooted: el.parent != nil
-//@     visit [C07] direct: old($m.parent) == el
+//@     visit [C07, C01] direct: old($m.parent) == el
 
 // ---------------------------------------------------------------------------
 // Inbound entry points
@@ -417,7 +417,7 @@ package saml2
 //@   ensures [C04] skip.response: err == nil && sp.SkipSignatureValidation ==> !res.SignatureValidated
 //@   ensures [C04] skip.assertions: err == nil && sp.SkipSignatureValidation ==>
 //@        forall k int :: 0 <= k && k < len(res.Assertions) ==> !res.Assertions[k].SignatureValidated
-//@   ensures [C01, C04] signed.verified: err == nil && !sp.SkipSignatureValidation && res.SignatureValidated ==>
+//@   ensures [C01, C04, C08] signed.verified: err == nil && !sp.SkipSignatureValidation && res.SignatureValidated ==>
 //@        Verified(res.$src, sp.IDPCertificateStore, sp.Clock)
 //@   ensures [C01, C02, C04] signed.root: err == nil && !sp.SkipSignatureValidation && res.SignatureValidated ==>
 //@        sigState(validatedFrom(res.$src), sp.IDPCertificateStore, sp.Clock) == 1
@@ -429,6 +429,7 @@ package saml2
 //@        AllMatchesSigned(sp, res.$src, NMatch(res.$src, SAMLAssertionNamespace, AssertionTag))
 //@   exit [C12] limit: err == nil ==> b64ok(encodedResponse) && raw == b64dec(encodedResponse)
 //@        && (doc.$bytes == raw || doc.$bytes == readAllOf(Inflated(raw, sp.MaximumDecompressedBodySize)))
+//@   exit [C03] typed: lasterr(SAMLServiceProvider.Validate) != nil ==> err == lasterr(SAMLServiceProvider.Validate)
 //@   iter 0
 //@     invariant [C01, C04] validated: AllAssertionsValidated(sp, decodedResponse)
 //@     invariant [C01, C02] allsigned: AllMatchesSigned(sp, unverifiedResponse, $k)
@@ -449,6 +450,7 @@ package saml2
 //@   ensures [C02, C04, C10] flag.missing: err == nil && !sp.SkipSignatureValidation && !res.SignatureValidated ==> sigState(res.$src, sp.IDPCertificateStore, sp.Clock) == 0
 //@   exit [C12] limit: err == nil ==> b64ok(encodedResponse) && raw == b64dec(encodedResponse)
 //@        && (doc.$bytes == raw || doc.$bytes == readAllOf(Inflated(raw, sp.MaximumDecompressedBodySize)))
+//@   exit [C10] typed: lasterr(SAMLServiceProvider.ValidateDecodedLogoutResponse) != nil ==> err == lasterr(SAMLServiceProvider.ValidateDecodedLogoutResponse)
 
 //@ func (sp *SAMLServiceProvider) ValidateEncodedLogoutRequestPOST(encodedRequest string) (res *LogoutRequest, err error)
 //@   requires InboundOK(sp)
@@ -463,6 +465,7 @@ package saml2
 //@   ensures [C02, C04, C10] flag.missing: err == nil && !sp.SkipSignatureValidation && !res.SignatureValidated ==> sigState(res.$src, sp.IDPCertificateStore, sp.Clock) == 0
 //@   exit [C12] limit: err == nil ==> b64ok(encodedRequest) && raw == b64dec(encodedRequest)
 //@        && (doc.$bytes == raw || doc.$bytes == readAllOf(Inflated(raw, sp.MaximumDecompressedBodySize)))
+//@   exit [C10] typed: lasterr(SAMLServiceProvider.ValidateDecodedLogoutRequest) != nil ==> err == lasterr(SAMLServiceProvider.ValidateDecodedLogoutRequest)
 
 // The unverified decoders (C20, C12): no key or configuration input; raw first, then the inflation limited to
 // the fixed 5 MiB; what is decoded is exactly the raw bytes or that inflation.
@@ -502,6 +505,8 @@ package saml2
 //@        forall k int :: 0 <= k && k < len(info.Assertions) ==>
 //@            info.Assertions[k].SignatureValidated && Verified(info.Assertions[k].$src, sp.IDPCertificateStore, sp.Clock)
 //@   exit [C03] wrapped: response == nil ==> err is ErrVerification && ErrVerification(err).Cause != nil
+//@   exit [C03] cause: lasterr(SAMLServiceProvider.ValidateEncodedResponse) != nil ==>
+//@        err is ErrVerification && ErrVerification(err).Cause == lasterr(SAMLServiceProvider.ValidateEncodedResponse)
 //@   exit [C08] values: err == nil && response.Assertions[0].AttributeStatement != nil ==>
 //@        forall j int :: 0 <= j && j < len(response.Assertions[0].AttributeStatement.Attributes) ==>
 //@            has(assertionInfo.Values, response.Assertions[0].AttributeStatement.Attributes[j].Name)
@@ -721,7 +726,7 @@ package saml2
 //@   requires SigningReady(sp) && el != nil && len(el.Child) >= 1
 //@   assigns sp.signingContext, sp.signingContextMu.$mu
 //@   fresh ret when err == nil
-//@   ensures [C13] placement: err == nil ==> SignedCopy(sp, el, ret, sp.signingContext)
+//@   ensures [C13, C15] placement: err == nil ==> SignedCopy(sp, el, ret, sp.signingContext)
 //@   ensures [C13] detached: err == nil ==> ret.parent == nil
 //@   ensures [C13] fail: err != nil ==> ret == nil
 //@   ensures [C17] unlocked: sp.signingContextMu.$mu == 0
@@ -730,7 +735,7 @@ package saml2
 //@   requires SigningReady(sp) && el != nil && len(el.Child) >= 1
 //@   assigns sp.signingContext, sp.signingContextMu.$mu
 //@   fresh ret when err == nil
-//@   ensures [C13] placement: err == nil ==> SignedCopy(sp, el, ret, sp.signingContext)
+//@   ensures [C13, C15] placement: err == nil ==> SignedCopy(sp, el, ret, sp.signingContext)
 //@   ensures [C13] detached: err == nil ==> ret.parent == nil
 //@   ensures [C13] fail: err != nil ==> ret == nil
 //@   ensures [C17] unlocked: sp.signingContextMu.$mu == 0
@@ -739,7 +744,7 @@ package saml2
 //@   requires SigningReady(sp) && el != nil && len(el.Child) >= 1
 //@   assigns sp.signingContext, sp.signingContextMu.$mu
 //@   fresh ret when err == nil
-//@   ensures [C13] placement: err == nil ==> SignedCopy(sp, el, ret, sp.signingContext)
+//@   ensures [C13, C15] placement: err == nil ==> SignedCopy(sp, el, ret, sp.signingContext)
 //@   ensures [C13] detached: err == nil ==> ret.parent == nil
 //@   ensures [C13] fail: err != nil ==> ret == nil
 //@   ensures [C17] unlocked: sp.signingContextMu.$mu == 0
